@@ -1055,9 +1055,70 @@ fn run_c16(seed: u64, rounds: usize) -> Report {
         }
         let mut quitter_uids: Vec<u64> = vec![];
         let mut dead = false;
+        let mut cancel_verdicts = 0;
         for r in 0..rounds {
             let mut rng = Rng::derive(seed, "c16-tls", if mode_tag == "det" { 0 } else { 1 }, r as u64);
-            let stage = *rng.pick(&["tcp-only", "hello-prefix", "hello-only", "handshake-done", "partial-request", "request-sent"]);
+            let stage = *rng.pick(&["tcp-only", "hello-prefix", "hello-only", "handshake-done", "partial-request", "request-sent", "handler-running"]);
+            if stage == "handler-running" {
+                // the task-mode promise itself, over TLS: the client leaves while its handler
+                // is observably running (H_ENTER logged, a long sleep ahead of it)
+                if cancel_verdicts >= 3 {
+                    continue;
+                }
+                let how = *rng.pick(&["fin", "rst", "close-notify"]);
+                let quid = next_uid();
+                let sleep_us: u64 = if mode_tag == "det" { 300_000 } else { 8_000_000 };
+                let setup = (|| -> Result<TlsClient, String> {
+                    let (mut c, hello) = TlsClient::connect(srv.addr, &cfg)?;
+                    c.sock.write_all(&hello).map_err(|e| e.to_string())?;
+                    c.sock.set_read_timeout(Some(Duration::from_secs(10))).ok();
+                    c.raw_write(&Req::new("GET", "/health").uid(quid).header("x-vmon-sleep-us", &sleep_us.to_string()).encode())?;
+                    Ok(c)
+                })();
+                let Ok(mut c) = setup else {
+                    rep.inconclusive("victim setup");
+                    continue;
+                };
+                if log.wait_for(|e| e.kind == "H_ENTER" && e.uid == quid, Duration::from_secs(20)).is_none() {
+                    rep.inconclusive("victim's handler not entered within 20 s");
+                    continue;
+                }
+                log.push("C_DISC_CALL", quid, 0, how);
+                match how {
+                    "rst" => rst_close(c.sock),
+                    "close-notify" => {
+                        c.conn.send_close_notify();
+                        let _ = c.conn.write_tls(&mut c.sock);
+                        drop(c);
+                    }
+                    _ => {
+                        let _ = c.sock.shutdown(std::net::Shutdown::Both);
+                        drop(c);
+                    }
+                }
+                log.push("C_DISC_RET", quid, 0, "");
+                rep.eval(format!("handler-running|{how}|{mode_tag}"));
+                let ended = log.wait_for(|e| e.uid == quid && (e.kind == "H_END" || e.kind == "H_DONE"), Duration::from_secs(20));
+                let done = log.snapshot().iter().any(|e| e.kind == "H_DONE" && e.uid == quid);
+                match (mode_tag, ended.is_some(), done) {
+                    (_, false, _) => rep.inconclusive("victim's handler neither ended nor completed within 20 s"),
+                    ("det", true, true) => rep.count("detached_handlers_completed_after_tls_client_left", 1),
+                    ("det", true, false) => rep.violate(
+                        format!("C16:tls:detached:handler-cancelled@{how}"),
+                        json!({"seed": seed, "round": r, "mode": mode_tag, "uid": quid, "how": how}),
+                    ),
+                    (_, true, false) => rep.count("cancel_mode_handlers_cancelled_after_tls_client_left", 1),
+                    (_, true, true) => {
+                        cancel_verdicts += 1;
+                        rep.violate(
+                            format!("C16:tls:cancel:victim-ran-to-completion@{how}"),
+                            json!({"seed": seed, "round": r, "mode": mode_tag, "uid": quid, "how": how,
+                                   "what": "the client sent its complete request over TLS and disconnected while the handler was 8 s away from finishing; the handler was not cancelled and completed"}),
+                        );
+                    }
+                }
+                continue;
+            }
             let how = *rng.pick(&["fin", "rst"]);
             let k = 1 + rng.usize(4);
             let wit = |extra: serde_json::Value| json!({"seed": seed, "round": r, "mode": mode_tag, "transport": "tls", "stage": stage, "how": how, "quitters": k, "detail": extra});
